@@ -26,15 +26,16 @@ type c01Alt struct {
 }
 
 type c01Case struct {
-	World hx.World `json:"world"`
-	Alt   c01Alt   `json:"alt"`
+	World    hx.World `json:"world"`
+	Alt      c01Alt   `json:"alt"`
+	StepName string   `json:"step_name"` // name requested for the summary link (irrelevant for the signature check)
 }
 
 var c01AltKinds = []string{
 	"none", "neutral",
 	"content", "content", "content", "content", "payload-bytes", "inmemory",
 	"sig-drop", "sig-flip", "sig-swap", "sig-retarget", "sig-empty", "sig-junk-first",
-	"keys-empty", "keys-add-nonsigner", "keys-stranger", "keys-pubswap", "keys-subset",
+	"keys-empty", "keys-add-nonsigner", "keys-stranger", "keys-pubswap", "keys-subset", "keys-unknown-type", "keys-unknown-type",
 }
 
 func c01ContentMutations(w hx.World) (any, []hx.TreeMutation) {
@@ -45,7 +46,7 @@ func c01ContentMutations(w hx.World) (any, []hx.TreeMutation) {
 func c01Gen(t *rapid.T) c01Case {
 	o := hx.DefaultWorldOpts()
 	w := hx.GenWorld(t, o)
-	c := c01Case{World: w}
+	c := c01Case{World: w, StepName: rapid.SampledFrom([]string{"", "", "release", "a b"}).Draw(t, "stepname")}
 	c.Alt.Kind = rapid.SampledFrom(c01AltKinds).Draw(t, "alt")
 	c.Alt.A = rapid.IntRange(0, 1<<16).Draw(t, "a")
 	c.Alt.B = rapid.IntRange(0, 1<<16).Draw(t, "b")
@@ -133,6 +134,20 @@ func c01Eval(c c01Case, r *hx.Rec, enum *hx.TreeMutation) error {
 			ks := append([]hx.WKey{}, w.VerifierKeys...)
 			ks[i].PublicOf = alt.Other
 			w.VerifierKeys = ks
+		}
+	case "keys-unknown-type":
+		// a supplied key of a key type the library does not know, which did not sign: for the legacy
+		// wrapper the layout even carries an entry labelled with its key id
+		if signerSet[alt.Other] {
+			applied = false
+		} else {
+			kt := []string{"ecdsa-sha2-nistp384", "gpg", "RSA", ""}[alt.A%4]
+			ks := []hx.WKey{{Key: alt.Other, KeyTypeRaw: kt, KeyTypeSet: true}}
+			if alt.B%2 == 0 {
+				ks = append(append([]hx.WKey{}, w.VerifierKeys...), ks...)
+			}
+			w.VerifierKeys = ks
+			w.Layout.Sigs = append(append([]hx.WSig{}, w.Layout.Sigs...), hx.WSig{Key: w.Layout.Sigs[0].Key, ClaimID: "pool:" + alt.Other, Forge: "other-content"})
 		}
 	case "keys-subset":
 		if len(w.VerifierKeys) < 2 {
@@ -329,6 +344,7 @@ func c01Eval(c c01Case, r *hx.Rec, enum *hx.TreeMutation) error {
 			ok = false
 		}
 	}
+	b.StepName = c.StepName
 	var out hx.Outcome
 	if inMemory != nil {
 		out = b.VerifyWith(inMemory, nil, nil)
